@@ -503,17 +503,17 @@ type finding struct {
 
 func run(e *hx.Env) *hx.Report {
 	r := hx.NewReport("C18", e.Tier, e.Seed, rule)
-	if e.Replay != "" {
-		return replay(e, r)
-	}
-	lockset.Quiet()
-	corrPart(e, r)
-
 	cniPath := filepath.Join(rootDir(), "out", fmt.Sprintf("c18cni-%d", os.Getpid()))
 	os.MkdirAll(cniPath, 0o755)
 	os.WriteFile(filepath.Join(cniPath, "gxfake"), []byte(fakePlugin), 0o755)
 	os.Setenv("GX_CNI_PATH", cniPath)
 	defer os.RemoveAll(cniPath)
+	defer cleanState()
+	if e.Replay != "" {
+		return replay(e, r)
+	}
+	lockset.Quiet()
+	corrPart(e, r)
 	names := []string{}
 	for _, s := range surfaces {
 		names = append(names, s.name)
@@ -568,6 +568,7 @@ func run(e *hx.Env) *hx.Report {
 	var mu sync.Mutex
 	found := map[string]*finding{}
 	hangSeen := map[string]int{}
+	hangBudget := 12 // confirmed hangs / wedges of a shape that is not skipped by prediction
 	var wg sync.WaitGroup
 	for w := 0; w < nWorkers; w++ {
 		wg.Add(1)
@@ -589,16 +590,37 @@ func run(e *hx.Env) *hx.Report {
 						continue
 					}
 				}
+				mu.Lock()
+				stop := hangBudget <= 0
+				mu.Unlock()
+				if stop {
+					// enough confirmed hangs: every further one costs the watchdog time and adds nothing
+					mu.Lock()
+					r.Hit("skipped-after-hang-budget")
+					mu.Unlock()
+					continue
+				}
 				o := s.do(j)
 				if (o.Class == "hang" || o.Follow == "wedged") && !hugeRange(j.input, hugeBits(j.surface)) {
 					// not the known expensive shape: give it 12 s in a fresh worker before calling it a hang
-					j2 := j
-					j2.patient = true
-					if o2 := s.do(j2); o2.Class != "hang" && o2.Follow != "wedged" {
+					// (only while the signature is new: a confirmed hang is not re-confirmed every time)
+					mu.Lock()
+					confirmed := hangSeen[signature(j, o)]
+					mu.Unlock()
+					if confirmed < 2 {
+						j2 := j
+						j2.patient = true
+						if o2 := s.do(j2); o2.Class != "hang" && o2.Follow != "wedged" {
+							mu.Lock()
+							r.Hit(j.surface + ":slow-answer")
+							mu.Unlock()
+							o = o2
+						}
+					}
+					if o.Class == "hang" || o.Follow == "wedged" {
 						mu.Lock()
-						r.Hit(j.surface + ":slow-answer")
+						hangBudget--
 						mu.Unlock()
-						o = o2
 					}
 				}
 				sig := signature(j, o)
@@ -618,7 +640,7 @@ func run(e *hx.Env) *hx.Report {
 					r.Sample(map[string]string{"surface": j.surface, "input": total.Describe(j.input), "class": o.Class, "tag": j.tag})
 				}
 				if sig != "" {
-					if strings.HasPrefix(sig, "hang:") {
+					if strings.HasPrefix(sig, "hang:") || strings.HasPrefix(sig, "wedged:") {
 						hangSeen[sig]++
 					}
 					if f, ok := found[sig]; ok {
@@ -715,6 +737,16 @@ func parseCaseOp(o string) (job, bool) {
 		}
 	}
 	return job{surface: w[1], input: data}, true
+}
+
+// cleanState removes the CNI / port state files our own container ids left in the product's fixed state directory
+func cleanState() {
+	for _, pat := range []string{"/var/lib/cni/galaxy/gxv18*", "/var/lib/cni/galaxy/port/gxv18*"} {
+		files, _ := filepath.Glob(pat)
+		for _, f := range files {
+			os.Remove(f)
+		}
+	}
 }
 
 func rootDir() string {
